@@ -14,6 +14,7 @@ VAR_POOLS = {
     "clash": {"S": "S", "A": "a", "B": "b", "C": "c"},        # same values as the terminals (only used for to_pda)
     "subs_lo": {"S": "S", "A": "S#SUBS#0", "B": "S#SUBS#1", "C": "S#SUBS#2"},   # look like substitute's fresh variables
     "subs_hi": {"S": "S", "A": "S#SUBS#3", "B": "S#SUBS#2", "C": "A#SUBS#1"},
+    "int0": {"S": "S", "A": 0, "B": 1, "C": 2},
     "other": {"S": "T", "A": "X", "B": "Y", "C": "Z"},          # shares no name with "upper"
     # with the terminal pool "Cterm": names of the helpers to_normal_form makes for the terminal C and for long bodies
     "freshC": {"S": "S", "A": "C#CNF#", "B": "C#CNF#2", "C": "d#CNF#"},
@@ -22,7 +23,8 @@ TERM_POOLS = {
     "ab": {"a": "a", "b": "b", "c": "c"},
     "int": {"a": 0, "b": 1, "c": 2},
     "upperT": {"a": "A", "b": "B", "c": "C"},
-    "Cterm": {"a": "C", "b": "d", "c": "e"},          # terminals spelled like the variables of the "upper" pool
+    "Cterm": {"a": "C", "b": "d", "c": "e"},
+    "digits": {"a": "0", "b": "1", "c": "2"},          # strings spelled like the integer variables of pool "int0"          # terminals spelled like the variables of the "upper" pool
 }
 
 
